@@ -69,13 +69,17 @@ fn worker_body(engine: &'static dyn Engine, tier: Tier, seed: u64, from: u64, to
                     nviol += 1;
                     stats.counters.inc("violating_runs");
                     if nviol <= 16 {
+                        let rt = match &v.narrowed {
+                            Some(n) => (**n).clone(),
+                            None => t.clone(),
+                        };
                         let _ = writeln!(
                             out,
                             "V {} {} {} {}",
                             run,
                             hex(v.invariant.as_bytes()),
                             hex(v.detail.as_bytes()),
-                            hex(t.render(&v.invariant, &v.detail).as_bytes())
+                            hex(rt.render(&v.invariant, &v.detail).as_bytes())
                         );
                     }
                 }
@@ -553,7 +557,7 @@ pub fn exec_file(engine: &dyn Engine, path: &str) -> Result<Option<Violation>, H
 pub fn minimise(engine: &dyn Engine, t: &Trace, invariant: &str) -> Result<(Trace, u64), HarnessError> {
     let mut tests = 0u64;
     let mut cur = t.clone();
-    let mut fails = |cand: &Trace, tests: &mut u64| -> Result<bool, HarnessError> {
+    let fails = |cand: &Trace, tests: &mut u64| -> Result<bool, HarnessError> {
         *tests += 1;
         let r = exec_child(engine, cand, "min")?;
         Ok(matches!(r, Some(v) if v.invariant == invariant))
